@@ -1037,7 +1037,9 @@ std::string Generator::GeneratorImpl::generateOperatorCode(const std::string &op
             astRightChildCode = "(" + astRightChildCode + ")";
         } else if (isPlusOperator(astRightChild)
                    || isMinusOperator(astRightChild)) {
-            if (astRightChild->rightChild() != nullptr) {
+            if ((astRightChild->rightChild() != nullptr)
+                || isTimesOperator(astRightChild->leftChild())
+                || isDivideOperator(astRightChild->leftChild())) {
                 astRightChildCode = "(" + astRightChildCode + ")";
             }
         }
